@@ -174,6 +174,7 @@ def install(pe):
     E["itertools.chain"] = lambda pe, a, k: [x for it in a for x in pe.iterate(it)]
     E["logging.getLogger"] = lambda pe, a, k: Top_logger
     E["warnings.warn"] = lambda pe, a, k: None
+    E["logging.noop"] = lambda pe, a, k: None
 
     # value-like externals (accessed as attributes, not called)
     pe.ext_values = {
